@@ -16,6 +16,9 @@ struct cfg {
     size_t item_size;
     int is_static;
     size_t cap; /* initial capacity (dynamic) or fixed capacity (static) */
+    int ambient;  /* every operation starts with a stale AWS_ERROR_INVALID_INDEX in the thread's last-error slot (a failed indexed look-up on
+                     some other list): added after a seeded change that made the array list's push consult it without looking at
+                     the return code first */
     int bool_cmp; /* comparator in the two-valued style the header documents ("return a > b;"), not three-way */
 };
 static struct cfg g_cfg;
@@ -316,6 +319,8 @@ static void m_apply(int op) {
         size_t blen;
         snapshot(before, &blen);
         aws_reset_error();
+    if (g_cfg.ambient) aws_raise_error(AWS_ERROR_INVALID_INDEX);
+        if (g_cfg.ambient) aws_raise_error(AWS_ERROR_INVALID_INDEX);
         int rc = with_handle ? aws_priority_queue_push_ref(&q, item, &hnode[h]) : aws_priority_queue_push(&q, item);
         bool expect_ok = true;
         int expect_err = 0;
@@ -356,6 +361,8 @@ static void m_apply(int op) {
     if (op == OP_POP || op == OP_TOP) {
         uint8_t *p = item;
         aws_reset_error();
+    if (g_cfg.ambient) aws_raise_error(AWS_ERROR_INVALID_INDEX);
+        if (g_cfg.ambient) aws_raise_error(AWS_ERROR_INVALID_INDEX);
         int rc;
         void *topp = NULL;
         if (op == OP_POP)
@@ -413,6 +420,7 @@ static void m_apply(int op) {
     snapshot(before, &blen);
     memset(item, 0xEE, sizeof(item));
     aws_reset_error();
+    if (g_cfg.ambient) aws_raise_error(AWS_ERROR_INVALID_INDEX);
     int rc = aws_priority_queue_remove(&q, item, &hnode[h]);
     snprintf(nm, sizeof(nm), "remove(handle %d)", h);
     if (hstate[h] == 1) {
@@ -475,11 +483,13 @@ static struct esx_model model = {
 };
 
 static void set_cfg(size_t item, int is_static, size_t cap, int bool_cmp) {
+    g_cfg.ambient = bool_cmp == 2;
+    if (bool_cmp == 2) bool_cmp = 0;
     g_cfg.item_size = item;
     g_cfg.is_static = is_static;
     g_cfg.cap = cap;
     g_cfg.bool_cmp = bool_cmp;
-    snprintf(g_cfg.name, sizeof(g_cfg.name), "pq-i%zu-%s%zu%s", item, is_static ? "static" : "dyn", cap, bool_cmp ? "-boolcmp" : "");
+    snprintf(g_cfg.name, sizeof(g_cfg.name), "pq-i%zu-%s%zu%s", item, is_static ? "static" : "dyn", cap, bool_cmp ? "-boolcmp" : g_cfg.ambient ? "-ambient" : "");
     model.name = g_cfg.name;
 }
 
@@ -495,7 +505,7 @@ int main(int argc, char **argv) {
         size_t cap;
     } stores[] = {{0, 0}, {0, 1}, {0, 4}, {1, 1}, {1, 3}};
     int rc = 0;
-    for (int bc = 0; bc < 2; ++bc)
+    for (int bc = 0; bc < 3; ++bc) /* 0: three-way comparator, 1: two-valued comparator, 2: three-way + stale thread error */
         for (int i = 0; i < nitems; ++i)
             for (int s = 0; s < 5; ++s) {
                 /* the two-valued comparator (added after a seeded change whose sift-down tested pred(..) < 0): item size 8, the
